@@ -327,6 +327,22 @@ Definition fault_error_classes : list string :=
    two repairs (C07_fault_gap_of_this_tree) *)
 Definition fault_gap : list string := filter (fun c => negb (is_fatal c)) fault_error_classes.
 
+(* What the runtime's ttrpc client returns when the plugin's HANDLER returned an error: the plugin's
+   ttrpc server turns the error into a status (ttrpc services.go: a status error keeps its code,
+   convertCode maps os.ErrInvalid to InvalidArgument, io errors to OutOfRange / FailedPrecondition,
+   os.IsExist / IsNotExist / IsPermission errors to AlreadyExists / NotFound / PermissionDenied,
+   context.Canceled to Canceled, anything else — errors.New, fmt.Errorf — to Unknown).  Every grpc code
+   except OK and DeadlineExceeded (the report of the expired deadline, fatal on purpose).  None of them
+   may be in isFatalError's table: such an error is the handler's veto. *)
+Definition handler_error_classes : list string :=
+  ["codes.Unknown"; "codes.Canceled"; "codes.InvalidArgument"; "codes.NotFound"; "codes.AlreadyExists";
+   "codes.PermissionDenied"; "codes.ResourceExhausted"; "codes.FailedPrecondition"; "codes.Aborted";
+   "codes.OutOfRange"; "codes.Unimplemented"; "codes.Internal"; "codes.Unavailable"; "codes.DataLoss";
+   "codes.Unauthenticated"].
+
+(* isFatalError's table names nothing but fault classes *)
+Definition fatal_table_exact : bool := forallb (fun c => smem c fault_error_classes) fatal_errors.
+
 (* the four classes isFatalError's comment and DESIGN name *)
 Definition documented_fatal : list string :=
   ["ttrpc.ErrClosed"; "ttrpc.ErrServerClosed"; "ttrpc.ErrProtocol"; "context.DeadlineExceeded"].
